@@ -77,15 +77,13 @@ Fixpoint gcdext_loop (fuel : nat) (ts tt ns nt tr nr : Z) : res (Z * Z * Z) :=
 Definition gcdext_fuel (b : Z) : nat := S (S (2 * Z.to_nat (Z.log2 (Z.abs b) + 1))).
 
 Definition gcdext_euclid (a b : Z) : res (Z * Z * Z) :=
-  do '(g, s, t) <- gcdext_loop (gcdext_fuel b) 1 0 0 1 a b;
+  (* this_s starts at 0 for a = b = 0 (gcd 0 with both cofactors 0), at 1 otherwise *)
+  let ts0 := if (a =? 0) && (b =? 0) then 0 else 1 in
+  do '(g, s, t) <- gcdext_loop (gcdext_fuel b) ts0 0 0 1 a b;
   if g <? 0 then Ok (- g, - s, - t) else Ok (g, s, t).
 
-(* mpz_gcdext returns the same cofactors (the minimal ones) except for a = b = 0 *)
-Definition gcdext (c : cfg) (a b : Z) : res (Z * Z * Z) :=
-  match c with
-  | GMP => if (a =? 0) && (b =? 0) then Ok (0, 0, 0) else gcdext_euclid a b
-  | BOOST => gcdext_euclid a b
-  end.
+(* mpz_gcdext returns the same cofactors (the minimal ones) in the GMP configuration *)
+Definition gcdext (c : cfg) (a b : Z) : res (Z * Z * Z) := gcdext_euclid a b.
 
 (* mp_boost.cpp: mp_invert  (GMP: mpz_invert; undefined for m = 0) *)
 Definition invert (c : cfg) (a m : Z) : res (bool * Z) :=
@@ -116,13 +114,13 @@ Definition tpowm (a e m : Z) : Z :=
   let r := powm_nn a e m in
   if (a <? 0) && Z.odd e && negb (r =? 0) then r - Z.abs m else r.
 
-(* mp_powm, exponent >= 0 (mp_boost.cpp adds m to a negative result) *)
+(* mp_powm, exponent >= 0 (mp_boost.cpp adds |m| to a negative result) *)
 Definition mp_powm (c : cfg) (a e m : Z) : res Z :=
   if m =? 0 then divzero
   else
     match c with
     | GMP => Ok (powm_nn a e m)
-    | BOOST => let r := tpowm a e m in Ok (if r <? 0 then r + m else r)
+    | BOOST => let r := tpowm a e m in Ok (if r <? 0 then r + Z.abs m else r)
     end.
 
 (* mp_boost.cpp: step / positive_root / mp_root  (Newton iteration from x = 1) *)
@@ -221,7 +219,7 @@ Definition mp_fib (n : Z) : Z := let '(_, b, _, _) := fib_matrix n in b.
 Definition mp_fib2 (n : Z) : Z * Z := let '(_, b, _, d) := fib_matrix n in (b, d).
 Definition mp_lucnum (n : Z) : Z := let '(_, _, c, _) := luc_matrix n in c.
 Definition mp_lucnum2 (n : Z) : res (Z * Z) :=
-  if n =? 0 then exn_std else let '(a, _, c, _) := luc_matrix (n - 1) in Ok (a, c).
+  if n =? 0 then Ok (2, -1) else let '(a, _, c, _) := luc_matrix (n - 1) in Ok (a, c).
 
 (* mp_boost.cpp: mp_fac_ui, mp_bin_ui *)
 Fixpoint fac_loop (cnt : nat) (i res : Z) : Z :=
@@ -270,11 +268,7 @@ Definition jacobi_boost (a n : Z) : res Z :=
   else unchecked_jacobi (jacobi_fuel a n) a n.
 
 Definition mp_kronecker (c : cfg) (a n : Z) : res Z :=
-  if n =? 0 then
-    match c with
-    | BOOST => exn_std
-    | GMP => Ok (if (a =? 1) || (a =? -1) then 1 else 0)
-    end
+  if n =? 0 then Ok (if (a =? 1) || (a =? -1) then 1 else 0)
   else
     let kr_a_u := if (n <? 0) && (a <? 0) then -1 else 1 in
     let '(m, j) := strip_twos (S (Z.to_nat (Z.log2 (Z.abs n)))) (Z.abs n) 0 in
